@@ -4,5 +4,5 @@ CONSTANTS
   Pairs = @PAIRS@
 INIT SInit
 NEXT SNext
-INVARIANTS Emit
+INVARIANTS Conform Emit
 CHECK_DEADLOCK FALSE
